@@ -11,10 +11,12 @@ import (
 	"strings"
 
 	"github.com/fxamacker/cbor/v2"
+	"github.com/taurusgroup/multi-party-sig/pkg/ecdsa"
 	"github.com/taurusgroup/multi-party-sig/pkg/math/curve"
 	"github.com/taurusgroup/multi-party-sig/pkg/party"
 	"github.com/taurusgroup/multi-party-sig/pkg/protocol"
 	"github.com/taurusgroup/multi-party-sig/protocols/cmp"
+	"github.com/taurusgroup/multi-party-sig/protocols/doerner"
 	"github.com/taurusgroup/multi-party-sig/protocols/frost"
 
 	"verifharness/sx"
@@ -202,8 +204,44 @@ func (c *ctx) c15FrostSx(cf *frost.Config) (v sx.V, err error) {
 	return sx.List(sx.Str(string(cf.ID)), sx.Int(int64(cf.Threshold)), sx.Big(scalarZ(cf.PrivateShare)), pk, sx.OptBytes(cf.ChainKey), sx.List(sh...)), nil
 }
 
-func (c *ctx) c15PredictFrost(b []byte, obj interface{}, errText, pan string) (claim bool, diff string) {
-	rep, err := c.m.Call("cbor.frost_unmarshal", sx.Bytes(b))
+// c15SortShares sorts a model share list ((id point) ...) by id
+func c15SortShares(v sx.V) sx.V {
+	l := append([]sx.V{}, v.L...)
+	sort.SliceStable(l, func(i, j int) bool { return string(l[i].L[0].B) < string(l[j].L[0].B) })
+	return sx.List(l...)
+}
+
+func (c *ctx) c15SharesSx(pts map[party.ID]curve.Point) (sx.V, error) {
+	ids := []string{}
+	for id := range pts {
+		ids = append(ids, string(id))
+	}
+	sort.Strings(ids)
+	sh := []sx.V{}
+	for _, id := range ids {
+		if pts[party.ID(id)] == nil {
+			return sx.V{}, fmt.Errorf("nil point for %s", id)
+		}
+		p, e := c.ptSx(pts[party.ID(id)])
+		if e != nil {
+			return sx.V{}, e
+		}
+		sh = append(sh, sx.List(sx.Str(id), p))
+	}
+	return sx.List(sh...), nil
+}
+
+func c15OptSx(v *sx.V) sx.V {
+	if v == nil {
+		return sx.List()
+	}
+	return sx.List(*v)
+}
+
+// c15PredictOutcome compares Go's verdict with a model op that returns an outcome: (0 v) | (1 code) | (2).
+// goSx renders the accepted Go object in the shape the model prints; norm normalises the model's value.
+func (c *ctx) c15PredictOutcome(op string, arg sx.V, errText, pan string, goSx func() (sx.V, error), norm func(sx.V) sx.V) (claim bool, diff string) {
+	rep, err := c.m.Call(op, arg)
 	if err != nil {
 		return false, ""
 	}
@@ -224,44 +262,169 @@ func (c *ctx) c15PredictFrost(b []byte, obj interface{}, errText, pan string) (c
 		if cls != 0 {
 			return true, "Go accepts, model: " + c15Short(rep.String(), 60)
 		}
-		gs, err := c.c15FrostSx(obj.(*frost.Config))
+		gs, err := func() (v sx.V, err error) {
+			defer func() {
+				if r := recover(); r != nil {
+					err = fmt.Errorf("panic while reading the object: %v", r)
+				}
+			}()
+			return goSx()
+		}()
 		if err != nil {
 			return true, "Go accepts an object that cannot be read: " + err.Error()
 		}
-		m := rep.L[1]
-		if len(m.L) == 6 {
-			// Go keeps one entry per key (the last one written); the model keeps the pairs as written
-			last := map[string]sx.V{}
-			for _, e := range m.L[5].L {
-				last[string(e.L[0].B)] = e
-			}
-			keys := make([]string, 0, len(last))
-			for k := range last {
-				keys = append(keys, k)
-			}
-			sort.Strings(keys)
-			sh := []sx.V{}
-			for _, k := range keys {
-				sh = append(sh, last[k])
-			}
-			m = sx.List(m.L[0], m.L[1], m.L[2], m.L[3], m.L[4], sx.List(sh...))
-		}
+		m := norm(rep.L[1])
 		if !m.Equal(gs) {
-			return true, "accepted configs differ: Go " + c15Short(gs.String(), 200) + " model " + c15Short(m.String(), 200)
+			return true, "accepted objects differ: Go " + c15Short(gs.String(), 200) + " model " + c15Short(m.String(), 200)
 		}
 	}
 	return true, ""
 }
 
+func (c *ctx) c15PredictFrost(b []byte, obj interface{}, errText, pan string) (bool, string) {
+	return c.c15PredictOutcome("cbor.frost_unmarshal", sx.Bytes(b), errText, pan,
+		func() (sx.V, error) { return c.c15FrostSx(obj.(*frost.Config)) },
+		func(m sx.V) sx.V {
+			if len(m.L) != 6 {
+				return m
+			}
+			return sx.List(m.L[0], m.L[1], m.L[2], m.L[3], m.L[4], c15SortShares(m.L[5]))
+		})
+}
+
+func (c *ctx) c15PredictTaproot(b []byte, obj interface{}, errText, pan string) (bool, string) {
+	return c.c15PredictOutcome("cbor.taproot_unmarshal", sx.Bytes(b), errText, pan,
+		func() (sx.V, error) {
+			cf := obj.(*frost.TaprootConfig)
+			pts := map[party.ID]curve.Point{}
+			for id, p := range cf.VerificationShares {
+				if p == nil {
+					return sx.V{}, fmt.Errorf("nil share")
+				}
+				pts[id] = p
+			}
+			sh, err := c.c15SharesSx(pts)
+			if err != nil {
+				return sx.V{}, err
+			}
+			share := sx.List()
+			if cf.PrivateShare != nil {
+				share = sx.List(sx.Big(scalarZ(cf.PrivateShare)))
+			}
+			return sx.List(sx.Str(string(cf.ID)), sx.Int(int64(cf.Threshold)), share, sx.OptBytes(cf.PublicKey), sx.OptBytes(cf.ChainKey), sh), nil
+		},
+		func(m sx.V) sx.V {
+			if len(m.L) != 6 {
+				return m
+			}
+			return sx.List(m.L[0], m.L[1], m.L[2], m.L[3], m.L[4], c15SortShares(m.L[5]))
+		})
+}
+
+func (c *ctx) c15PredictDoerner(b []byte, obj interface{}, errText, pan string) (bool, string) {
+	setupLen := 4096
+	if _, ok := obj.(*doerner.ConfigSender); ok {
+		setupLen = 2064
+	}
+	return c.c15PredictOutcome("cbor.doerner_unmarshal", sx.List(sx.Int(int64(setupLen)), sx.Bytes(b)), errText, pan,
+		func() (sx.V, error) {
+			var setup []byte
+			var share curve.Scalar
+			var pub curve.Point
+			var chain []byte
+			switch cf := obj.(type) {
+			case *doerner.ConfigReceiver:
+				if cf.Setup != nil {
+					setup, _ = cf.Setup.MarshalBinary()
+				}
+				share, pub, chain = cf.SecretShare, cf.Public, cf.ChainKey
+			case *doerner.ConfigSender:
+				if cf.Setup != nil {
+					setup, _ = cf.Setup.MarshalBinary()
+				}
+				share, pub, chain = cf.SecretShare, cf.Public, cf.ChainKey
+			}
+			p, err := c.ptSx(pub)
+			if err != nil {
+				return sx.V{}, err
+			}
+			return sx.List(sx.OptBytes(setup), sx.Big(scalarZ(share)), p, sx.OptBytes(chain)), nil
+		},
+		func(m sx.V) sx.V { return m })
+}
+
+func (c *ctx) c15PredictSignature(b []byte, obj interface{}, errText, pan string) (bool, string) {
+	return c.c15PredictOutcome("cbor.signature_unmarshal", sx.Bytes(b), errText, pan,
+		func() (sx.V, error) {
+			sg := obj.(*ecdsa.Signature)
+			r, err := c.ptSx(sg.R)
+			if err != nil {
+				return sx.V{}, err
+			}
+			return sx.List(r, sx.Big(scalarZ(sg.S))), nil
+		},
+		func(m sx.V) sx.V { return m })
+}
+
+func (c *ctx) c15PredictPreSig(b []byte, obj interface{}, errText, pan string) (bool, string) {
+	return c.c15PredictOutcome("cbor.presig_unmarshal", sx.Bytes(b), errText, pan,
+		func() (sx.V, error) {
+			ps := obj.(*ecdsa.PreSignature)
+			r, err := c.ptSx(ps.R)
+			if err != nil {
+				return sx.V{}, err
+			}
+			pm := func(m *party.PointMap) (sx.V, error) {
+				if m == nil {
+					return sx.List(), nil
+				}
+				sh, err := c.c15SharesSx(m.Points)
+				if err != nil {
+					return sx.V{}, err
+				}
+				return sx.List(sh), nil
+			}
+			rb, err := pm(ps.RBar)
+			if err != nil {
+				return sx.V{}, err
+			}
+			sm, err := pm(ps.S)
+			if err != nil {
+				return sx.V{}, err
+			}
+			return sx.List(sx.OptBytes(ps.ID), r, rb, sm, sx.Big(scalarZ(ps.KShare)), sx.Big(scalarZ(ps.ChiShare))), nil
+		},
+		func(m sx.V) sx.V {
+			if len(m.L) != 6 {
+				return m
+			}
+			so := func(v sx.V) sx.V {
+				if len(v.L) == 1 {
+					return sx.List(c15SortShares(v.L[0]))
+				}
+				return v
+			}
+			return sx.List(m.L[0], m.L[1], so(m.L[2]), so(m.L[3]), m.L[4], m.L[5])
+		})
+}
+
+// c15PredictMessage: the model's message_unmarshal into a fresh receiver against Go's UnmarshalBinary
 func (c *ctx) c15PredictMessage(b []byte, obj interface{}, errText, pan string) (claim bool, diff string) {
-	rep, err := c.m.Call("cbor.message_decode", sx.Bytes(b))
-	if err != nil || len(rep.L) == 0 {
+	dec, err := c.m.Call("cbor.message_decode", sx.Bytes(b))
+	if err != nil || len(dec.L) == 0 {
+		return false, "" // refused or outside the modelled shape: no claim
+	}
+	rep, err := c.m.Call("cbor.message_unmarshal", sx.List(c15MsgSx(&protocol.Message{}), sx.Bytes(b)))
+	if err != nil {
 		return false, ""
 	}
-	if pan != "" || errText != "" {
-		return true, "model decodes, Go: " + errText + pan
+	if pan != "" {
+		return true, "Go panics: " + pan
 	}
-	if !rep.L[0].Equal(c15MsgSx(obj.(*protocol.Message))) {
+	if rep.L[1].AsBool() != (errText != "") {
+		return true, fmt.Sprintf("error status differs: Go %q, model %s", errText, rep.String())
+	}
+	if errText == "" && !rep.L[0].Equal(c15MsgSx(obj.(*protocol.Message))) {
 		return true, "decoded messages differ: Go " + c15Short(c15MsgSx(obj.(*protocol.Message)).String(), 200) + " model " + c15Short(rep.L[0].String(), 200)
 	}
 	return true, ""
@@ -319,6 +482,17 @@ func (c *ctx) c15Judge(t *c15Type, field, name string, b []byte, predict bool) {
 			claim, diff = c.c15PredictCMP(b, obj, errText, pan)
 		case "frost.Config":
 			claim, diff = c.c15PredictFrost(b, obj, errText, pan)
+		case "frost.TaprootConfig":
+			claim, diff = c.c15PredictTaproot(b, obj, errText, pan)
+		case "doerner.ConfigReceiver", "doerner.ConfigSender":
+			claim, diff = c.c15PredictDoerner(b, t.Empty(), errText, pan)
+			if errText == "" && pan == "" {
+				claim, diff = c.c15PredictDoerner(b, obj, errText, pan)
+			}
+		case "ecdsa.Signature":
+			claim, diff = c.c15PredictSignature(b, obj, errText, pan)
+		case "ecdsa.PreSignature":
+			claim, diff = c.c15PredictPreSig(b, obj, errText, pan)
 		case "protocol.Message":
 			claim, diff = c.c15PredictMessage(b, obj, errText, pan)
 		}
@@ -328,7 +502,7 @@ func (c *ctx) c15Judge(t *c15Type, field, name string, b []byte, predict bool) {
 				c.res.Violate("correspondence", "C15/"+t.Name+"-unmarshal-mismatch/"+field+"/"+c15Class(name), diff,
 					c15Replay{Type: t.Name, Field: field, Corruption: name, Bytes: hex.EncodeToString(b), What: "model prediction"})
 			}
-		} else if t.Name == "cmp.Config" || t.Name == "frost.Config" || t.Name == "protocol.Message" {
+		} else {
 			c.res.Dist["corrupt/"+t.Name+"/outside-model"]++
 		}
 	}
